@@ -79,6 +79,62 @@ theorem splitLabels_safe {σ : Type} (name : Bytes) (act : σ → Bytes → Res 
   | panic p => rw [hr] at h; simp at h
   | ub => rw [hr] at h; simp at h
 
+/-- a reflexive, transitive relation respected by every successful action is respected by the loop -/
+theorem splitLoop_rel {σ : Type} (name : Bytes) (act : σ → Bytes → Res σ) (R : σ → σ → Prop)
+    (hrefl : ∀ s, R s s) (htrans : ∀ a b c, R a b → R b c → R a c)
+    (hact : ∀ st l st', act st l = .ok st' → R st st')
+    (fuel j i : Nat) (ds : Option Nat) (st : σ) :
+    ∀ st' ds', splitLoop name act fuel j i ds st = .ok (st', ds') → R st st' := by
+  induction fuel generalizing j i ds st with
+  | zero =>
+    intro st' ds' h
+    simp only [splitLoop, Res.ok.injEq, Prod.mk.injEq] at h
+    rw [← h.1]; exact hrefl _
+  | succ fuel ih =>
+    intro st' ds' h
+    unfold splitLoop at h
+    by_cases hj : j < name.size
+    · simp only [hj, if_true] at h
+      by_cases hdot : (name.getD j 0 == DOT) = true
+      · simp only [hdot, if_true] at h
+        by_cases hij : i ≤ j
+        · simp only [hij, if_true] at h
+          cases hr : act st (name.extract i j) with
+          | ok st1 =>
+            simp only [hr] at h
+            exact htrans _ _ _ (hact _ _ _ hr) (ih _ _ _ _ _ _ h)
+          | err e => simp [hr] at h
+          | panic p => simp [hr] at h
+          | ub => simp [hr] at h
+        · simp [hij] at h
+      · simp only [hdot, Bool.false_eq_true, if_false] at h
+        exact ih _ _ _ _ _ _ h
+    · simp only [hj, if_false, Res.ok.injEq, Prod.mk.injEq] at h
+      rw [← h.1]; exact hrefl _
+
+theorem splitLabels_rel {σ : Type} (name : Bytes) (act : σ → Bytes → Res σ) (R : σ → σ → Prop)
+    (hrefl : ∀ s, R s s) (htrans : ∀ a b c, R a b → R b c → R a c)
+    (hact : ∀ st l st', act st l = .ok st' → R st st') (st st' : σ)
+    (h : splitLabels name act st = .ok st') : R st st' := by
+  unfold splitLabels at h
+  cases hl : splitLoop name act name.size 0 0 none st with
+  | ok v =>
+    obtain ⟨st1, ds⟩ := v
+    have h1 := splitLoop_rel name act R hrefl htrans hact _ _ _ _ _ _ _ hl
+    simp only [hl] at h
+    cases ds with
+    | none => exact htrans _ _ _ h1 (hact _ _ _ h)
+    | some d =>
+      simp only at h
+      split at h
+      · simp at h
+      · split at h
+        · exact htrans _ _ _ h1 (hact _ _ _ h)
+        · simp only [Res.ok.injEq] at h; rw [← h]; exact h1
+  | err e => simp [hl] at h
+  | panic p => simp [hl] at h
+  | ub => simp [hl] at h
+
 theorem checkNameBytes_safe (s : Bytes) : (checkNameBytes s).safe := by
   unfold checkNameBytes
   by_cases h0 : s.size = 0
